@@ -418,6 +418,11 @@ func (a *Adv) AuthProbes(perTxn int) int {
 		}
 		// witness tampers (no control needed: the content is the honest one)
 		wt := rapid.IntRange(0, 7).Draw(t, "v1witness")
+		for _, sg := range orig.Signatures {
+			if sg.CoveredFields.WholeTransaction && len(sg.CoveredFields.Signatures) > 0 && rapid.Bool().Draw(t, "v1witnessCovered") {
+				wt = 8 // a signature covers other signatures: prefer the tamper that only applies here
+			}
+		}
 		if wt != 7 && rapid.IntRange(0, 3).Draw(t, "v1witnessMultisig") == 0 {
 			for i := range orig.Signatures {
 				for j := i + 1; j < len(orig.Signatures); j++ {
@@ -455,6 +460,23 @@ func (a *Adv) AuthProbes(perTxn int) int {
 			if !v1UsesUnknownAlgo(orig) && x.Signatures[0].CoveredFields.WholeTransaction {
 				x.Signatures[0].CoveredFields = FullCoverage(*x)
 				label = "v1/witness/change-covered-fields"
+			}
+		case 8: // a covered signature is altered in a way that leaves it valid on its own: its timelock goes from 0 to 1
+			// (explicit coverage does not include a signature's own timelock; the covering signature does)
+			if a.Child >= 1 {
+			covered:
+				for _, sg := range x.Signatures {
+					if !sg.CoveredFields.WholeTransaction {
+						continue
+					}
+					for _, j := range sg.CoveredFields.Signatures {
+						if j < uint64(len(x.Signatures)) && !x.Signatures[j].CoveredFields.WholeTransaction && x.Signatures[j].Timelock == 0 {
+							x.Signatures[j].Timelock = 1
+							label = "v1/witness/covered-signature-timelock-changed"
+							break covered
+						}
+					}
+				}
 			}
 		case 7: // of two signatures for one parent, the second is replaced by a second, valid signature of the first one's key
 		twice:
